@@ -14,7 +14,7 @@ from mindsdb_sql.planner.query_plan import QueryPlan
 from mindsdb_sql.planner.step_result import Result as StepResult
 from mindsdb_sql.planner.steps import PlanStep
 
-from vf import gsx, parsing, reflect
+from vf import gsx, histories, parsing, reflect
 from vf.runner import Check, Result, exc_sig
 
 SENT = '__sentinel__'
@@ -225,10 +225,10 @@ class CHECK(Check):
             v = copy.deepcopy(plan)
             v.steps.append(copy.deepcopy(plan.steps[0]))
             variants.append(('extended', v))
+        if len(plan.steps) >= 2:
             v = copy.deepcopy(plan)
             v.steps[-1] = copy.deepcopy(plan.steps[0])
             variants.append(('last-replaced', v))
-        if len(plan.steps) >= 2:
             v = copy.deepcopy(plan)
             v.steps[0], v.steps[-1] = v.steps[-1], v.steps[0]
             variants.append(('swapped', v))
@@ -242,7 +242,7 @@ class CHECK(Check):
                 res.violation(f'plan-eq-not-boolean|variant-{vk}', f'{text!r}: {a!r}/{b!r}')
             elif a != b:
                 res.violation(f'plan-eq-not-symmetric|variant-{vk}', f'{text!r}: plan == {vk} variant is {a}, the converse is {b}')
-            elif a is True and repr(plan.steps) != repr(v.steps):
+            elif a is True and histories.canon(repr(plan.steps)) != histories.canon(repr(v.steps)):
                 res.violation(f'equal-plans-print-differently|variant-{vk}', f'{text!r}: a plan compares equal to its {vk} variant:\n    {plan.steps}\n    {v.steps}')
         for s, s2 in zip(plan.steps, plan2.steps):
             try:
